@@ -247,6 +247,32 @@ def check(res, tier):
         if rr.cls != "ok" or rr.stdout != exp:
             res.violation("runtime:O%d" % opt, "compiled literals do not print their written value",
                           {"program": prog, "expected_stdout": exp, "implementation": rr.as_dict()})
+    # list literals of both forms, at every optimisation level, after the heap has been used: `n Mal w` denotes n times the
+    # written value also when that value is all zero bits
+    kinds = [("Zahlen Liste", "jede Zahl", "0", "0"), ("Zahlen Liste", "jede Zahl", "7", "7"), ("Kommazahlen Liste", "jede Kommazahl", "0,0", "0"),
+             ("Kommazahlen Liste", "jede Kommazahl", "1,5", "1.5"), ("Wahrheitswert Liste", "jeden Wahrheitswert", "falsch", "falsch"),
+             ("Wahrheitswert Liste", "jeden Wahrheitswert", "wahr", "wahr"), ("Buchstaben Liste", "jeden Buchstaben", "'a'", "a"),
+             ("Text Liste", "jeden Text", '""', ""), ("Text Liste", "jeden Text", '"ab"', "ab")]
+    lprog, lexp, vn = 'Binde "Duden/Ausgabe" ein.\n', "", 0
+    for count in (1, 3, 6, 9, 64):
+        lprog += ("Wenn wahr, dann:\n\tDie Zahlen Liste m1 ist %d Mal 81985529216486895.\n\tDie Wahrheitswert Liste m2 ist %d Mal wahr.\n"
+                  "\tDie Buchstaben Liste m3 ist %d Mal 'z'.\n\tSchreibe ((die Länge von m1) plus (die Länge von m2) plus (die Länge von m3)) auf eine Zeile.\n" % (count, count, count))
+        lexp += "%d\n" % (3 * count)
+        for tn, each, lit, want in kinds:
+            vn += 1
+            for form in ("%d Mal %s" % (count, lit), "eine Liste, die aus %s besteht" % ", ".join([lit] * count)):
+                vn += 1
+                lprog += "Die %s v%d ist %s.\nFür %s e in v%d, mache:\n\tSchreibe e.\n\tSchreibe \"|\".\nSchreibe \"\" auf eine Zeile.\n" % (tn, vn, form, each, vn)
+                lexp += (want + "|") * count + "\n"
+    for opt in (0, 1, 2):
+        rr = pipeline.compile_run(ddp, {"main.ddp": lprog}, pipeline.Config(opt=opt))
+        res.evaluations += 1
+        if rr.cls != "ok" or rr.stdout != lexp:
+            got, wantl = rr.stdout.split("\n"), lexp.split("\n")
+            k = next((i for i, (x, y) in enumerate(zip(got + [""], wantl + [""])) if x != y), 0)
+            res.violation("runtime-lists:O%d" % opt, "a list literal does not hold its written values at -O %d: output line %d is %r, written %r" % (
+                opt, k + 1, got[k] if k < len(got) else None, wantl[k] if k < len(wantl) else None),
+                {"program": lprog, "expected_stdout": lexp, "implementation": rr.as_dict(), "config": "O%d" % opt})
     res.extra.update({"exhaustive_text_and_char_literals": nex, "integer_literals": len(int_cases()), "float_literals": len(floats),
                       "float_nearest_ok": okf, "disagreements": mism, **stats})
     res.exhaustive = True
